@@ -554,7 +554,9 @@ def variations(ctx, rr):
         for c in ast.walk(root):
             if isinstance(c, ast.Call) and isinstance(c.func, ast.Attribute) and c.func.attr == 'append' and isinstance(c.func.value, ast.Name) and c.func.value.id in res_names_ \
                     and c.args and isinstance(c.args[0], ast.Call) and isinstance(c.args[0].func, ast.Attribute) and c.args[0].func.attr == 'replace':
-                okc = bool(IN_[n_.id]) and bool(changers)
+                if not changers:
+                    continue        # the changed host list is built as a new value (`hosts[:-1]`, `hosts + [...]`), not edited in place
+                okc = bool(IN_[n_.id])
                 rr.ob(ctx.where(lv, c), 'a www variation is only built after the host list was changed', ok=okc)
                 if not okc:
                     rr.fail(ctx.finding('R-VARIATIONS', lv, c, 'a path reaches `%s` without having added or removed the www stem: the "variation" is the LRU itself, so a prefix is listed twice '
